@@ -334,6 +334,7 @@ type VerifMock struct {
 	mu      sync.Mutex
 	block   bool
 	waiters []chan struct{}
+	kinds   []string // what each parked call announces
 	Events  int
 }
 
@@ -376,6 +377,7 @@ func (m *VerifMock) PushClient(group, kind, id, username string, perms []string,
 	}
 	ch := make(chan struct{})
 	m.waiters = append(m.waiters, ch)
+	m.kinds = append(m.kinds, kind)
 	m.mu.Unlock()
 	<-ch
 	return nil
@@ -401,14 +403,22 @@ func (m *VerifMock) Blocked() int {
 
 // Release lets the k-th parked call continue.
 func (m *VerifMock) Release(k int) bool {
+	_, ok := m.ReleaseKind(k)
+	return ok
+}
+
+// ReleaseKind lets the k-th parked call continue and says what it announces (add, change).
+func (m *VerifMock) ReleaseKind(k int) (string, bool) {
 	m.mu.Lock()
 	defer m.mu.Unlock()
 	if k < 0 || k >= len(m.waiters) {
-		return false
+		return "", false
 	}
 	close(m.waiters[k])
+	kind := m.kinds[k]
 	m.waiters = append(m.waiters[:k], m.waiters[k+1:]...)
-	return true
+	m.kinds = append(m.kinds[:k], m.kinds[k+1:]...)
+	return kind, true
 }
 
 // VerifDetached counts the goroutines started by `go func` statements inside
